@@ -478,7 +478,7 @@ class BlockLevel:
     def block(self, stmts: list, owner, field) -> list:
         stmts = self.push_use(stmts)
         stmts = self.expand_ifexp(stmts)
-        stmts = self.swap_and_hoist(stmts)
+        stmts = self.swap_and_hoist(stmts, self.bare_kind(owner, field))
         stmts = self.unguard(stmts, owner, field)
         stmts = self.merge_ifs(stmts)
         stmts = self.loops(stmts)
@@ -511,21 +511,35 @@ class BlockLevel:
                 out.append(st)
         return out
 
-    def swap_and_hoist(self, stmts):
+    @staticmethod
+    def bare_kind(owner, field):
+        """the jump that only skips the rest of this block: `continue` in a loop body, a bare `return` in a function body"""
+        if field != 'body':
+            return None
+        if isinstance(owner, (ast.FunctionDef, ast.AsyncFunctionDef)):
+            return ast.Return
+        if isinstance(owner, (ast.For, ast.While)):
+            return ast.Continue
+        return None
+
+    def swap_and_hoist(self, stmts, bare=None):
         out = []
         for st in stmts:
             if isinstance(st, ast.If) and st.orelse:
+                if bare is not None and ((st.body and _is_bare(st.body[-1], bare)) or _is_bare(st.orelse[-1], bare)):
+                    out.append(st)  # structured by unguard()
+                    continue
                 if st.body and isinstance(st.body[-1], JUMP):
                     rest, st.orelse = st.orelse, []
                     out.append(st)
-                    out.extend(self.swap_and_hoist(rest))
+                    out.extend(self.swap_and_hoist(rest, bare))
                     continue
                 if isinstance(st.orelse[-1], JUMP):
                     st.test = nnf(negate(st.test))
                     st.body, st.orelse = st.orelse, st.body
                     rest, st.orelse = st.orelse, []
                     out.append(st)
-                    out.extend(self.swap_and_hoist(rest))
+                    out.extend(self.swap_and_hoist(rest, bare))
                     continue
                 if not (len(st.orelse) == 1 and isinstance(st.orelse[0], ast.If)):
                     pos = positive(st.test)
@@ -536,19 +550,33 @@ class BlockLevel:
         return out
 
     def unguard(self, stmts, owner, field):
-        """`if c: return` + rest (function body) / `if c: continue` + rest (loop body)  ->  `if not c: rest`"""
-        if field != 'body':
+        """a jump that only skips the rest of the block is written as structure:
+        `if c: A; continue` [else: B] + rest  ->  `if c: A else: B; rest`   (`if not c: B; rest` when A is empty);
+        the same with a bare `return` in a function body"""
+        kind = self.bare_kind(owner, field)
+        if kind is None:
             return stmts
-        if isinstance(owner, (ast.FunctionDef, ast.AsyncFunctionDef)) or (self.is_pattern and isinstance(owner, ast.Module) and False):
-            kind = ast.Return
-        elif isinstance(owner, (ast.For, ast.While)):
-            kind = ast.Continue
-        else:
-            return stmts
-        for i, st in enumerate(stmts[:-1]):
-            if isinstance(st, ast.If) and not st.orelse and len(st.body) == 1 and _is_bare(st.body[0], kind):
-                rest = self.unguard(stmts[i + 1:], owner, field)
-                new = ast.copy_location(ast.If(test=nnf(negate(st.test)), body=rest, orelse=[]), st)
+        for i, st in enumerate(stmts):
+            if not isinstance(st, ast.If):
+                continue
+            if st.orelse and _is_bare(st.orelse[-1], kind) and not (st.body and _is_bare(st.body[-1], kind)):
+                st.test = nnf(negate(st.test))
+                st.body, st.orelse = st.orelse, st.body
+            if st.body and _is_bare(st.body[-1], kind):
+                tail = stmts[i + 1:]
+                if not st.orelse and not tail:
+                    # `if c: A; continue` as the last statement: the jump is redundant
+                    st.body = st.body[:-1] or [ast.copy_location(ast.Pass(), st)]
+                    continue
+                rest = self.unguard(list(st.orelse) + tail, owner, field)
+                a = st.body[:-1]
+                if a:
+                    new = ast.copy_location(ast.If(test=st.test, body=a, orelse=rest), st)
+                    pos = positive(new.test)
+                    if pos is not None and not (len(new.orelse) == 1 and isinstance(new.orelse[0], ast.If)):
+                        new.test, new.body, new.orelse = pos, new.orelse, new.body
+                else:
+                    new = ast.copy_location(ast.If(test=nnf(negate(st.test)), body=rest, orelse=[]), st)
                 return stmts[:i] + [new]
         return stmts
 
@@ -976,7 +1004,13 @@ def normalise_pattern(tree: ast.Module) -> ast.Module:
     tree = n.visit(tree)
     for fn in reversed(list(_functions(tree))):
         BlockLevel(fn, is_pattern=True).run()
-    BlockLevel(tree, is_pattern=True).run()
+    if tree.body and (isinstance(tree.body[-1], ast.Return) or any(isinstance(st, ast.If) and ((st.body and _is_bare(st.body[-1], ast.Return)) or (st.orelse and _is_bare(st.orelse[-1], ast.Return))) for st in tree.body)):
+        # a pattern that ends with a return describes the end of a function body: it is normalised as one
+        fake = ast.FunctionDef(name='_pattern_', args=ast.arguments(posonlyargs=[], args=[], kwonlyargs=[], kw_defaults=[], defaults=[]), body=tree.body, decorator_list=[], lineno=1, col_offset=0)
+        BlockLevel(fake, is_pattern=True).run()
+        tree.body = fake.body
+    else:
+        BlockLevel(tree, is_pattern=True).run()
     ast.fix_missing_locations(tree)
     return tree
 
